@@ -1,0 +1,7 @@
+//go:build !verif
+
+package telemetry
+
+// vtrace is the verification trace hook. Without the "verif" build tag it
+// is an empty function the compiler inlines away; see vtrace_on.go.
+func vtrace(ev string, a, b, c uint64) {}
